@@ -61,7 +61,7 @@ func (v *Vue) evalConditionExpr(ctx VueContext, expr string) (bool, error) {
 	}
 
 	// A call of a function that is neither registered nor built in is an error, not a false condition
-	if m := filterRe.FindStringSubmatch(expr); m != nil && helpers.IsFunctionCall(expr) && !strings.Contains(expr, "|") {
+	if m := matchCall(expr); m != nil && helpers.IsFunctionCall(expr) && !strings.Contains(expr, "|") {
 		return false, fmt.Errorf("in expression '%s': function '%s' not found", expr, m[1])
 	}
 
@@ -268,7 +268,7 @@ func (v *Vue) isTemplateFuncCall(expr string) bool {
 	if helpers.IsComplexExpr(expr) || strings.Contains(expr, "|") {
 		return false
 	}
-	if m := filterRe.FindStringSubmatch(expr); m != nil && helpers.IsFunctionCall(expr) {
+	if m := matchCall(expr); m != nil && helpers.IsFunctionCall(expr) {
 		_, registered := v.funcMap[m[1]]
 		return registered
 	}
